@@ -11,6 +11,7 @@ from __future__ import annotations
 
 import itertools
 import json
+import random
 import re
 
 from common import Ctx, dec, enc, run_driver
@@ -18,6 +19,10 @@ from leanbuild import lean_obligations
 
 ALPHABET = ["a", ".", " ", "'", '"', ",", ")", "-", "\n", "…"]
 EXTRA = ["“", "‘", "”", "’", "1", "_", "?", "!", ":", ";", "—", "(", "\t", "é", "x"]
+TAG_DELIMS = [("{%", "%}"), ("{#", "#}"), ("{{", "}}"), ("<!--", "-->")]
+TAG_FRAGS = ["a...b", "wait...", "...and", " ", " ", "\n", "\n", "x", "word", "...", '"..."', "(x) ...", ". ...", "…", "x=\"a...b\"", "..", "%", "#", "}", "-", "..."]
+# the tags of a text: leftmost, shortest, across newlines (the property's "tags"; independent of the implementation's pattern)
+TAG_RE = re.compile(r"\{%[\s\S]*?%\}|\{#[\s\S]*?#\}|\{\{[\s\S]*?\}\}|<!--[\s\S]*?-->")
 
 
 def word_flags(t: str) -> str:
@@ -44,6 +49,19 @@ def tie_ellipses(ctx: Ctx) -> None:
         else:
             t = "".join(rng.choice(ALPHABET + EXTRA) for _ in range(rng.randint(7, 40)))
         texts.append(t)
+    # strings with template tags / comments, also spanning line breaks (text nodes are coalesced across soft breaks with "\n");
+    # drawn from a generator of their own so that the streams above and below are what they were
+    n_plain = len(texts)
+    trng = random.Random(f"C09:tags:{ctx.seed}")
+    n_tag = ctx.scale(6000, 60000)
+    for k in range(n_tag):
+        sep = " " if k < n_tag // 4 else trng.choice(["", "", " "])   # spaced-out (readable) strings first, then dense ones
+        t = []
+        for _ in range(trng.randint(1, 3)):
+            op, cl = trng.choice(TAG_DELIMS)
+            t += [trng.choice(TAG_FRAGS) for _ in range(trng.randint(0, 3))]
+            t += [op] + [trng.choice(TAG_FRAGS) for _ in range(trng.randint(1, 6))] + ([cl] if trng.random() < 0.9 else [])
+        texts.append(sep.join(t + [trng.choice(TAG_FRAGS) for _ in range(trng.randint(0, 3))]))
     outs = run_driver([f"ellipses\t{enc(t)}\t{word_flags(t)}\t1" for t in texts], workers=16)
     outs2 = run_driver([f"ellipses\t{enc(t)}\t{word_flags(t)}\t2" for t in texts], workers=16)
     bad = nonidem_model = 0
@@ -61,64 +79,271 @@ def tie_ellipses(ctx: Ctx) -> None:
             ctx.fail("E_IDEM: applying ellipses again changes the text", {"text": t}, {"once": exp, "twice": e2})
         if squash(exp) != squash(t):
             ctx.fail("E_SHAPE: ellipses changed something other than '...'→'…' and whitespace", {"text": t}, exp)
+        if i >= n_plain and TAG_RE.findall(exp) != TAG_RE.findall(t):
+            ctx.fail("E_TAGS: ellipses changed a template tag / HTML comment", {"text": t}, exp)
     ctx.bump("ellipses:exhaustive", n_exh)
-    ctx.bump("ellipses:sampled", len(texts) - n_exh)
+    ctx.bump("ellipses:sampled", n_plain - n_exh)
+    ctx.bump("ellipses:sampled with tags", len(texts) - n_plain)
+    ctx.bump("ellipses:sampled with a tag spanning lines", sum(1 for t in texts[n_plain:] if any("\n" in g for g in TAG_RE.findall(t))))
     ctx.obligation(f"tie ellipses: model = ellipses() on all {n_exh} strings over a {len(ALPHABET)}-symbol alphabet ≤{maxlen} and "
                    f"{len(texts) - n_exh} sampled longer strings", "correspondence", bad == 0, f"{bad} disagreement(s)")
     ctx.obligation(f"E_IDEM on the model: ellipses∘ellipses = ellipses on the same {len(texts)} strings (exhaustive TEST over the "
                    f"bounded set, not a theorem)", "model-test", nonidem_model == 0, f"{nonidem_model} non-idempotent string(s)")
-    ctx.rule("ellipses: exhaustive short strings over {a . space ' \" , ) - newline …}; fragments/random longer; "
-             "non-trivial = output differs from input")
+    ctx.rule("ellipses: exhaustive short strings over {a . space ' \" , ) - newline …}; fragments/random longer; strings with "
+             "{% %} {# #} {{ }} <!-- --> tags (also unclosed, also spanning newlines) around '...' fragments, tags compared "
+             "before/after; non-trivial = output differs from input")
 
 
 def doc_oracle(ctx: Ctx, n: int) -> None:
     import mdgen
-    from flowmark import reformat_text
     rng = ctx.rng
     for i in range(n):
         doc = mdgen.gen_document(rng, ellipses=True, tags=(i % 3 == 0), quotes=(i % 2 == 0))
         o = mdgen.rand_opts(rng)
         o.pop("ellipses", None)
         o["smartquotes"] = False  # smart quotes have their own (known) non-idempotence; keep C09's oracle about ellipses
-        try:
-            off = reformat_text(doc, ellipses=False, **o)
-            on = reformat_text(doc, ellipses=True, **o)
-        except Exception as e:
-            ctx.fail("format raised", {"doc": doc, "opts": o}, repr(e))
+        check_doc(ctx, "doc", doc, o, sample=(i % 977 == 3))
+
+
+def check_doc(ctx: Ctx, family: str, doc: str, o: dict, sample: bool = False) -> bool:
+    """The document-level oracle on one document and option set (ellipses excluded from `o`, smart quotes off).
+    Returns True when every comparison was made and held."""
+    import mdgen
+    from flowmark import reformat_text
+    try:
+        off = reformat_text(doc, ellipses=False, **o)
+        on = reformat_text(doc, ellipses=True, **o)
+    except Exception as e:
+        ctx.fail("format raised", {"doc": doc, "opts": o}, repr(e))
+        return False
+    ctx.count([family, doc, o], nontrivial=on != off, sample=sample)
+    case = {"doc": doc, "opts": o}
+    # text comparison without wrapping (so container prefixes such as '>' sit at the same words)
+    o0 = dict(o, width=0)
+    off0, on0 = reformat_text(doc, ellipses=False, **o0), reformat_text(doc, ellipses=True, **o0)
+    if squash(on0) != squash(off0) or on0.count("\n") != off0.count("\n"):
+        ctx.fail("E_DOC: ellipses on/off differ in more than '...'→'…' and whitespace (width 0)", case, {"off": off0, "on": on0})
+        return False
+    sp_off = [re.sub(r"\s+", " ", off[a:b]) for a, b in mdgen.protected_spans(off)]
+    sp_on = [re.sub(r"\s+", " ", on[a:b]) for a, b in mdgen.protected_spans(on)]
+    if sp_off != sp_on:
+        diff = next(((x, y) for x, y in zip(sp_off, sp_on) if x != y), (None, None))
+        known = None
+        if diff[0] and re.match(r"^(\{%|\{\{|\{#|<!--)", diff[0]):
+            known = "C09-ellipses-inside-template-tags"
+        ctx.fail("E_PROTECTED: code/tag/HTML/URL span changed by the ellipses option", case, {"off": diff[0], "on": diff[1]}, known=known)
+        return False
+    # with smart quotes also on: the two options must not interfere (quotes are decided on the same text)
+    osq = dict(o0, smartquotes=True)
+    off_sq, on_sq = reformat_text(doc, ellipses=False, **osq), reformat_text(doc, ellipses=True, **osq)
+    if squash(on_sq) != squash(off_sq):
+        ctx.fail("E_DOC: with smart quotes on, ellipses on/off differ in more than '...'→'…' and whitespace", case, {"off": off_sq, "on": on_sq})
+        return False
+    # second pass, without wrapping (wrap-induced non-idempotence is C02's subject, not the ellipsis rule's)
+    o1 = dict(o0, semantic=False)
+    on1 = reformat_text(doc, ellipses=True, **o1)
+    again = reformat_text(on1, ellipses=True, **o1)
+    first_off = reformat_text(doc, ellipses=False, **o1)
+    first = reformat_text(first_off, ellipses=False, **o1)
+    on, off = on1, first_off
+    if again != on and first == off:
+        ctx.fail("E_AGAIN: formatting again with ellipses on changes the document (and it does not with ellipses off)", case,
+                 {"once": on, "twice": again})
+        return False
+    return True
+
+
+# ------------------------------------------------------------------------------------------
+# Second document family: three-dot runs in and next to non-prose constructs, inside nested inline
+# containers, and in source layouts that break lines inside those containers and inside tags.
+#
+# A paragraph is a list of tokens `(text, brk)`: `text` is never broken; `brk` says which line break the
+# layout may put BEFORE the token: "any" (soft or hard), "soft", "none".
+
+_BEFORE_DOTS = ["(so)", "done.", "fine,", "really?", "yes!", "note:", "input)", "first;"]
+_DOT_WORDS = ["...and", "...then", "...but", "...", "....", "...or", "...so"]
+_PROSE_DOTS = [["wait..."], ["a...b"], ["so", "...", "on"], ["hmm...."], ["end...)"], ['"yes"...', "or"], ["...and"], ["…already"],
+               ["'no'..."], ["well...,", "then"], ["x", "...?"]]
+_DOT_URLS = ["https://github.com/o/r/compare/v0.5.0...v0.6.0", "http://example.com/a...b?c=1", "https://x.org/path...more/page.html#frag"]
+_DOT_CODE = ["`a...b`", "`wait... (x) ...and`", "``x...`y`...z``", "`...`"]
+_DOT_HTML = ['<span title="a...b">', "</span>", '<a href="https://x.org/a...b">', "</a>", "<br/>"]
+# tag content: no inline Markdown syntax (see the note on genuine findings in dots_documents)
+_TAG_PLAIN = ["field", 'kind="string"', "id=notes", "TODO:", "retry", "items", "x=1", "the", "loop", "/field"]
+_TAG_DOTS = [["a...b"], ['x="a...b"'], ["wait...", "more"], ["backoff...", "later"], ['join("...")'], ["(x)", "...and"],
+             ['placeholder="Anything', "else...", "tell", 'us"'], ["so", "...", "on"], ["v1...v2"]]
+# a source line must not start with these: '<!--' starts an HTML block (structure, not the ellipsis rule), the rest are block markers
+_NO_LINE_START = re.compile(r"^(?:<!--|[-+*>=|#~`]|\d+[.)]|:-)")
+
+
+def _tag_tokens(rng, multiline: bool) -> list[tuple[str, str]]:
+    op, cl = rng.choice(TAG_DELIMS)
+    inner: list[str] = []
+    for _ in range(rng.randint(1, 5)):
+        inner += rng.choice(_TAG_DOTS) if rng.random() < 0.5 else [rng.choice(_TAG_PLAIN)]
+    if not any("..." in t for t in inner):
+        inner += rng.choice(_TAG_DOTS)
+    if not multiline:
+        return [(" ".join([op] + inner + [cl]), "any")]
+    return [(op, "any")] + [(t, "soft") for t in inner + [cl]]
+
+
+def _dot_pieces(rng, n: int, depth: int, used: frozenset, cell: bool = False) -> list[tuple[str, str]]:
+    """`n` pieces of inline content; `used` = kinds of enclosing inline containers (no nesting of the same kind,
+    no link or URL inside link text)."""
+    import mdgen
+    out: list[tuple[str, str]] = []
+    after_url = False
+    for _ in range(n):
+        r = rng.random()
+        piece: list[tuple[str, str]]
+        url = False
+        if r < 0.30:
+            piece = [(rng.choice(mdgen.WORDS), "any") for _ in range(rng.randint(1, 4))]
+        elif r < 0.42:
+            piece = [(t, "any") for t in rng.choice(_PROSE_DOTS)]
+        elif r < 0.56:   # a three-dot word after a word that ends in a non-word, non-quote character: only a line/node start would convert it
+            piece = [(rng.choice(_BEFORE_DOTS), "any"), (rng.choice(_DOT_WORDS), "any"), (rng.choice(mdgen.WORDS), "any")]
+        elif r < 0.62:
+            piece = [(rng.choice(_DOT_CODE), "any")]
+        elif r < 0.70 and "link" not in used:
+            u = rng.choice(_DOT_URLS)
+            piece = [(rng.choice([f"<{u}>", u, u, "www.example.com/a...b"]), "any")]
+            url = True
+        elif r < 0.74:
+            piece = [(rng.choice(_DOT_HTML), "any")]
+        elif r < 0.77 and "link" not in used:
+            piece = [(f"![alt text]({rng.choice(_DOT_URLS)})", "any")]
+        elif r < 0.87:
+            piece = _tag_tokens(rng, multiline=(not cell and rng.random() < 0.6))
+        elif depth < 2:
+            kinds = [k for k in ("em", "strong", "strike", "link") if k not in used]
+            k = rng.choice(kinds)
+            inner = ([(rng.choice(mdgen.WORDS), "any")] + _dot_pieces(rng, rng.randint(1, 5), depth + 1, used | {k}, cell)
+                     + [(rng.choice(mdgen.WORDS), "any")])
+            if k == "link":
+                # no link titles here: a link whose text holds a hard break or a sentence end is wrapped word by word
+                # (C06-sentence-split-inside-atom), also between destination and title, and the span locator does not follow
+                # a destination+title across a line break / quote prefix (titles with '...' are in the reference definitions)
+                op, cl = "[", f"]({rng.choice(_DOT_URLS)})"
+            else:
+                op = cl = {"em": "*", "strong": "**", "strike": "~~"}[k]
+            inner[0] = (op + inner[0][0], "any")
+            inner[-1] = (inner[-1][0] + cl, inner[-1][1])
+            piece = inner
+        else:
+            piece = [(rng.choice(mdgen.WORDS), "any")]
+        if after_url and piece[0][1] == "any":
+            # a hard break directly after a bare URL joins the URL (known finding C01-hardbreak-after-bare-url)
+            piece[0] = (piece[0][0], "soft")
+        after_url = url
+        out += piece
+    return out
+
+
+def _lay_dots(rng, toks: list[tuple[str, str]], p_break: float) -> list[str]:
+    lines, cur = [], toks[0][0]
+    for s, brk in toks[1:]:
+        if brk != "none" and rng.random() < p_break and not _NO_LINE_START.match(s):
+            if brk == "any" and rng.random() < 0.1:
+                cur += rng.choice(["\\", "  "])
+            lines.append(cur)
+            cur = s
+        else:
+            cur += " " + s
+    return lines + [cur]
+
+
+def dots_document(rng, max_blocks: int = 3, max_pieces: int = 6) -> str:
+    """One document of the family.
+
+    Kept out of the family, because clean flowmark changes these (reported as genuine findings, not silenced):
+      * a template tag / comment whose content holds inline Markdown syntax (`{% x="*a* wait...now" %}`,
+        `{{ "<b>wait...now</b>" }}`): the tag is split over several text nodes and its '...' is converted;
+      * a hard line break inside a tag (`{% a␠␠⏎b="x...y" %}`): same, the tag spans two text nodes.
+    """
+    import mdgen
+    blocks: list[list[str]] = []
+    for _ in range(rng.randint(1, max_blocks)):
+        kind = rng.choice(["para", "para", "para", "ul", "ol", "quote", "quote-list", "atx", "setext", "table", "footnote"])
+        if kind == "table":
+            cols = rng.randint(1, 3)
+
+            def row() -> str:
+                return "| " + " | ".join(" ".join(t for t, _ in [(rng.choice(mdgen.WORDS), "")] + _dot_pieces(rng, rng.randint(1, 3), 1, frozenset(), cell=True))
+                                         for _ in range(cols)) + " |"
+            blocks.append([row(), "| " + " | ".join("---" for _ in range(cols)) + " |"] + [row() for _ in range(rng.randint(1, 2))])
             continue
-        ctx.count(["doc", doc, o], nontrivial=on != off, sample=(i % 977 == 3))
-        case = {"doc": doc, "opts": o}
-        # text comparison without wrapping (so container prefixes such as '>' sit at the same words)
-        o0 = dict(o, width=0)
-        off0, on0 = reformat_text(doc, ellipses=False, **o0), reformat_text(doc, ellipses=True, **o0)
-        if squash(on0) != squash(off0) or on0.count("\n") != off0.count("\n"):
-            ctx.fail("E_DOC: ellipses on/off differ in more than '...'→'…' and whitespace (width 0)", case, {"off": off0, "on": on0})
+        toks = [(rng.choice(mdgen.WORDS), "any")] + _dot_pieces(rng, rng.randint(2, max_pieces), 0, frozenset())
+        if rng.random() < 0.5:
+            toks.append((rng.choice(mdgen.END_WORDS[:8]), "any"))
+        lines = _lay_dots(rng, toks, 0.0 if kind == "atx" else rng.choice([0.0, 0.15, 0.3, 0.5]))
+        first, cont = {"para": ("", ""), "ul": ("- ", "  "), "ol": ("1. ", "   "), "quote": ("> ", "> "), "quote-list": ("> - ", ">   "),
+                       "atx": ("## ", ""), "setext": ("", ""), "footnote": ("[^n1]: ", "    ")}[kind]
+        lines = [(first if j == 0 else cont) + l for j, l in enumerate(lines)]
+        if kind == "setext":
+            lines.append(rng.choice(["====", "----"]))
+        if kind == "footnote":
+            lines = ["Text with a note[^n1] inside it.", ""] + lines
+        blocks.append(lines)
+    r = rng.random()
+    if r < 0.15:
+        blocks.append([f"[ref1]: {rng.choice(_DOT_URLS)}" + rng.choice(["", ' "A title...x"'])])
+        blocks.append(["See [the text...here][ref1] and [ref1] for more..."])
+    elif r < 0.3:
+        blocks.append(["```text", "Compiling...done", "x ...and y", "```"])
+    return "\n".join(mdgen.join_blocks(blocks)) + "\n"
+
+
+_DOTS_AFTER_SPACE = re.compile(r"(?<=\S) (?=\.\.\.)")
+_DOT_RUNS = re.compile(r"…|\.{3,}")
+
+
+def dots_oracle(ctx: Ctx, n: int) -> None:
+    """check_doc on the second family, plus the second-pass clause WITH wrapping, at widths aimed at the three-dot words:
+    for a word starting with '...' at column c of the unwrapped output, width c breaks the line right before it."""
+    import mdgen
+    from flowmark import reformat_text
+    rng = ctx.rng
+    for i in range(n):
+        doc = dots_document(rng, 1, 3) if i < n // 4 else dots_document(rng)   # small documents first (readable failing inputs)
+        o = mdgen.rand_opts(rng, widths=(0, 20, 40, 88, rng.randint(15, 100)))
+        o.pop("ellipses", None)
+        o["smartquotes"] = False
+        ctx.bump("dots-family:documents")
+        if "\n" in doc.split("\n\n")[0].strip("\n"):
+            ctx.bump("dots-family:multi-line first block")
+        if not check_doc(ctx, "dots-doc", doc, o, sample=(i % 97 == 5)):
             continue
-        sp_off = [re.sub(r"\s+", " ", off[a:b]) for a, b in mdgen.protected_spans(off)]
-        sp_on = [re.sub(r"\s+", " ", on[a:b]) for a, b in mdgen.protected_spans(on)]
-        if sp_off != sp_on:
-            diff = next(((x, y) for x, y in zip(sp_off, sp_on) if x != y), (None, None))
-            known = None
-            if diff[0] and re.match(r"^(\{%|\{\{|\{#|<!--)", diff[0]):
-                known = "C09-ellipses-inside-template-tags"
-            ctx.fail("E_PROTECTED: code/tag/HTML/URL span changed by the ellipses option", case, {"off": diff[0], "on": diff[1]}, known=known)
-            continue
-        # with smart quotes also on: the two options must not interfere (quotes are decided on the same text)
-        osq = dict(o0, smartquotes=True)
-        off_sq, on_sq = reformat_text(doc, ellipses=False, **osq), reformat_text(doc, ellipses=True, **osq)
-        if squash(on_sq) != squash(off_sq):
-            ctx.fail("E_DOC: with smart quotes on, ellipses on/off differ in more than '...'→'…' and whitespace", case, {"off": off_sq, "on": on_sq})
-            continue
-        # second pass, without wrapping (wrap-induced non-idempotence is C02's subject, not the ellipsis rule's)
-        o1 = dict(o0, semantic=False)
-        on1 = reformat_text(doc, ellipses=True, **o1)
-        again = reformat_text(on1, ellipses=True, **o1)
-        first_off = reformat_text(doc, ellipses=False, **o1)
-        first = reformat_text(first_off, ellipses=False, **o1)
-        on, off = on1, first_off
-        if again != on and first == off:
-            ctx.fail("E_AGAIN: formatting again with ellipses on changes the document (and it does not with ellipses off)", case,
-                     {"once": on, "twice": again})
+        ow = dict(o, semantic=False)
+        off0 = reformat_text(doc, ellipses=False, **dict(ow, width=0))
+        cols = sorted({m.start() for line in off0.split("\n") for m in _DOTS_AFTER_SPACE.finditer(line) if m.start() >= 8})
+        widths = rng.sample(cols, min(len(cols), 3))
+        runs = [dict(ow, width=w) for w in widths]
+        if o["width"] > 0:
+            runs.append(dict(o))   # the drawn width, with the drawn `semantic` (sentence breaks also move words to line starts)
+        for oo in runs:
+            once = reformat_text(doc, ellipses=True, **oo)
+            twice = reformat_text(once, ellipses=True, **oo)
+            ctx.count(["dots-doc-wrapped", doc, oo], nontrivial=bool(re.search(r"(?m)^[\s>]*(?:[-*+] |\d+\. )?\.\.\.", once)))
+            ctx.bump("dots-family:second pass with wrapping")
+            if twice == once:
+                continue
+            off1 = reformat_text(doc, ellipses=False, **oo)
+            if reformat_text(off1, ellipses=False, **oo) != off1:
+                ctx.bump("dots-family:second pass skipped (not a fixed point with ellipses off either)")
+                continue
+            if _DOT_RUNS.findall(once) == _DOT_RUNS.findall(twice):
+                # the second pass moved or restructured text without touching any '...'/'…': wrapping's own instability
+                # (e.g. a '<!--' comment wrapped to a line start becomes an HTML block), the subject of C02/C03, not of the ellipsis rule
+                ctx.bump("dots-family:second pass differs with every '...'/'…' unchanged (left to C02)")
+                continue
+            ctx.fail("E_AGAIN: formatting the wrapped document again with ellipses on converts a '...' that the first pass left "
+                     "(and the document is a fixed point with ellipses off)", {"doc": doc, "opts": oo}, {"once": once, "twice": twice})
+            break
+    ctx.rule("dots-doc: paragraphs/items/quotes/headings/cells/footnotes of words, '...' words after punctuation, code spans, "
+             "URLs/autolinks/destinations/titles, inline HTML and (multi-line) tags with '...', nested in emphasis/strong/strike/links, "
+             "source lines broken inside them; dots-doc-wrapped: second pass at widths that wrap right before a '...' word "
+             "(non-trivial = a line of the output starts with '...')")
 
 
 def replay_findings(ctx: Ctx) -> None:
@@ -138,6 +363,7 @@ def run(ctx: Ctx) -> None:
     if driver_ok:
         ctx.guard("tie ellipses", tie_ellipses)
     doc_oracle(ctx, ctx.scale(400, 6000))
+    dots_oracle(ctx, ctx.scale(200, 4000))
     ctx.assume("`\\w` of Python's re is a parameter (flags per character computed by re itself)")
     ctx.assume("rewrite_text_content / Marko inline parsing are covered by the document-level oracle")
 
@@ -153,7 +379,10 @@ def search(ctx: Ctx) -> None:
             ctx.fail("E_SHAPE: ellipses changed something other than '...'→'…' and whitespace", {"text": t}, out)
         elif ellipses(out) != out:
             ctx.fail("E_IDEM: applying ellipses again changes the text", {"text": t}, {"once": out, "twice": ellipses(out)})
+        elif TAG_RE.findall(out) != TAG_RE.findall(t):
+            ctx.fail("E_TAGS: ellipses changed a template tag / HTML comment", {"text": t}, out)
     doc_oracle(ctx, 6000)
+    dots_oracle(ctx, 4000)
 
 
 def replay(ctx: Ctx, path: str) -> int:
